@@ -1,6 +1,7 @@
 (* C06 - Single-trunk orthogon recognition is sound and complete.
    Statements only; every proof is [exact <lemma>]. *)
-From FrameModel Require Import Num.QcTac Geometry.Rect Stog.CreateStog Stog.StogFacts Stog.StogPost.
+From FrameModel Require Import Num.QcTac Geometry.Rect Stog.CreateStog Stog.StogFacts Stog.StogPost
+  Stog.StogHist Cases.CmpC06.
 From Coq Require Import Permutation.
 Open Scope list_scope.
 Open Scope Qc_scope.
@@ -58,3 +59,81 @@ Theorem C06_stog_post_ok_sound : forall eps aeps inp out b, stog_post_ok eps aep
   (b = false -> Forall (fun r => rloc r = NOPOLY) out).
 Proof. exact stog_post_ok_sound. Qed.
 Print Assumptions C06_stog_post_ok_sound.
+
+(* ---------------------------------------------------------------------------------------
+   Object histories (Stog/StogHist.v): the rectangles are objects that outlive a call, are
+   put into other lists, moved or resized in place or through the setters, and carry the
+   roles earlier calls (or the public location setter) left on them.
+   --------------------------------------------------------------------------------------- *)
+
+(* the roles the rectangles carry on entry are never read *)
+Theorem C06_create_stog_ignores_old_roles : forall eps aeps rs rs',
+  map geom rs = map geom rs' -> create_stog eps aeps rs = create_stog eps aeps rs'.
+Proof. exact create_stog_ignores_old_roles. Qed.
+Print Assumptions C06_create_stog_ignores_old_roles.
+
+(* a call on objects of a pool = create_stog on fresh copies of their current geometry; the list
+   is permuted only (kept as it is on a negative answer), no geometry changes, no object outside
+   the list is touched *)
+Theorem C06_call_spec : forall eps aeps pool idxs b idxs' pool',
+  call eps aeps pool idxs = Some (b, idxs', pool') ->
+  exists rs out,
+    gather pool idxs = Some rs /\ gather pool' idxs' = Some out /\
+    create_stog eps aeps (map geom rs) = Some (b, out) /\
+    Permutation idxs idxs' /\ NoDup idxs /\ (b = false -> idxs' = idxs) /\
+    map geom pool' = map geom pool /\
+    (forall i, ~ In i idxs -> nth_error pool' i = nth_error pool i).
+Proof. exact call_spec. Qed.
+Print Assumptions C06_call_spec.
+
+Theorem C06_call_ignores_old_roles : forall eps aeps pool pool' idxs, map geom pool = map geom pool' ->
+  match call eps aeps pool idxs, call eps aeps pool' idxs with
+  | Some (b, ix, p), Some (b', ix', p') =>
+      b = b' /\ ix = ix' /\ map geom p = map geom p' /\ gather p ix = gather p' ix'
+  | None, None => True
+  | _, _ => False
+  end.
+Proof. exact call_ignores_old_roles. Qed.
+Print Assumptions C06_call_ignores_old_roles.
+
+(* sequence version, by induction over the operations: every call of every history (calls on
+   sub-lists, permutations, lists with new or replaced rectangles, after in-place moves and
+   resizes, after arbitrary roles were set) is create_stog on the current geometry *)
+Theorem C06_hist_steps_ok : forall eps aeps ops pool,
+  Forall (step_ok eps aeps) (run_hist eps aeps pool ops).
+Proof. exact hist_steps_ok. Qed.
+Print Assumptions C06_hist_steps_ok.
+
+(* ... and what the caller sees (answers, orders, roles of the listed objects) does not depend on
+   the roles the objects carried when the history started *)
+Theorem C06_hist_ignores_old_roles : forall eps aeps ops pool pool', map geom pool = map geom pool' ->
+  map visible (run_hist eps aeps pool ops) = map visible (run_hist eps aeps pool' ops).
+Proof. exact hist_ignores_old_roles. Qed.
+Print Assumptions C06_hist_ignores_old_roles.
+
+(* "when so reported the trunk is listed first and every other rectangle carries the side it abuts;
+   otherwise no rectangle carries a role" - at every call of every history *)
+Theorem C06_hist_roles : forall eps aeps ops pool,
+  Forall (fun s : step => match s with
+     | (pre, idxs, Some (false, idxs', post)) =>
+         idxs' = idxs /\ forall i, In i idxs -> exists r, nth_error post i = Some r /\ rloc r = NOPOLY
+     | (pre, idxs, Some (true, idxs', post)) =>
+         exists i0 rest t rs, idxs' = i0 :: rest /\ nth_error post i0 = Some (set_loc t TRUNK) /\
+           gather post rest = Some rs /\
+           Forall (fun r => rloc r <> NOPOLY /\ rloc r <> TRUNK /\ abuts eps aeps (rloc r) t r) rs
+     | _ => True end) (run_hist eps aeps pool ops).
+Proof. exact hist_roles. Qed.
+Print Assumptions C06_hist_roles.
+
+(* the per-call checker the correspondence applies to the implementation's observed histories *)
+Theorem C06_call_check_sound : forall eps aeps pre idxs b idxs' post,
+  call_check eps aeps pre idxs b idxs' post = true ->
+  exists rs out,
+    gather pre idxs = Some rs /\ gather post idxs' = Some out /\
+    stog_decision eps aeps rs = Some b /\
+    Permutation (map geom rs) (map geom out) /\
+    (b = true -> exists t rest, out = t :: rest /\ rloc t = TRUNK /\
+       Forall (fun r => rloc r <> NOPOLY /\ rloc r <> TRUNK /\ abuts eps aeps (rloc r) t r) rest) /\
+    (b = false -> Forall (fun r => rloc r = NOPOLY) out).
+Proof. exact call_check_sound. Qed.
+Print Assumptions C06_call_check_sound.
